@@ -144,10 +144,9 @@ Definition classify (f : fsyn) : dres :=
   | FNan => DErr
   | FInf _ => DErr
   | FNum neg ip fp ex =>
-    let digs := strip_zeros (ip ++ fp) in
-    match digs with
-    | [] => DOk (Some 0)                     (* +0 and -0 both convert to Duration::ZERO *)
-    | _ =>
+    if dec_value (ip ++ fp) =? 0 then DOk (Some 0)   (* +0 and -0 both convert to Duration::ZERO *)
+    else
+      let digs := strip_zeros (ip ++ fp) in
       let L := Z.of_nat (length digs) in
       let E := (exp_value ex - Z.of_nat (length fp))%Z in
       let mag := (L + E)%Z in                (* 10^(mag-1) <= |value| < 10^mag *)
@@ -156,16 +155,20 @@ Definition classify (f : fsyn) : dres :=
         if (mag <=? -325)%Z then DOk (Some 0)
         else if (-322 <=? mag)%Z then DErr
         else DUnknown
-      else if (20 <? mag)%Z then DErr         (* >= 10^20 > 2^64, including overflow to inf *)
-      else if (mag <? 20)%Z then DOk (exact_nanos ip fp ex)   (* < 10^19 < 2^64 - 4096 *)
       else
-        (* 10^19 <= value < 10^20: compare exactly; value = M * 10^E with E = 20 - L *)
-        let M := dec_value digs in
-        let (lhs, scale) := if (0 <=? E)%Z then (M * 10 ^ Z.to_N E, 1) else (M, 10 ^ Z.to_N (- E)) in
-        if two64 * scale <=? lhs then DErr
-        else if lhs <? (two64 - 4096) * scale then DOk (exact_nanos ip fp ex)
-        else DUnknown                          (* within 4096 of 2^64: f64 rounding decides *)
-    end
+        match exact_nanos ip fp ex with
+        | Some n => DOk (Some n)              (* value < 2^22 + 1: far from every boundary *)
+        | None =>
+          if (20 <? mag)%Z then DErr          (* >= 10^20 > 2^64, including overflow to inf *)
+          else if (mag <? 20)%Z then DOk None (* < 10^19 < 2^64 - 4096 *)
+          else
+            (* 10^19 <= value < 10^20: compare exactly; value = M * 10^E with E = 20 - L *)
+            let M := dec_value digs in
+            let (lhs, scale) := if (0 <=? E)%Z then (M * 10 ^ Z.to_N E, 1) else (M, 10 ^ Z.to_N (- E)) in
+            if two64 * scale <=? lhs then DErr
+            else if lhs <? (two64 - 4096) * scale then DOk None
+            else DUnknown                      (* within 4096 of 2^64: f64 rounding decides *)
+        end
   end.
 
 (* responses/mod.rs parse_duration *)
